@@ -95,7 +95,7 @@ static int create_family(Choice& c, Report& rep) {
         if (r != (legal ? OPUS_OK : OPUS_BAD_ARG)) CR_FAIL("c11:init-verdict:enc", "init Fs=%d ch=%d app=%d returned %d", Fs, ch, app, r);
         if (legal) { opus_int32 v = 0; opus_encoder_ctl((OpusEncoder*)mem.p, OPUS_GET_APPLICATION(&v)); if (v != app) CR_FAIL("c11:created-object-unusable:enc", "application %d", v); }
       }
-      rep.label(legal ? "create:enc:accept" : "create:enc:reject"); rep.nontrivial(!legal);
+      rep.label(legal ? "create:enc:accept" : "create:enc:reject");
       return 0; }
     case 1: {  // ---- single decoder
       int Fs = FS_GRID[c.irange(0, 18)], ch = CH_GRID[c.irange(0, 4)];
@@ -117,7 +117,7 @@ static int create_family(Choice& c, Report& rep) {
         int r = opus_decoder_init((OpusDecoder*)mem.p, Fs, ch); rep.count();
         if (r != (legal ? OPUS_OK : OPUS_BAD_ARG)) CR_FAIL("c11:init-verdict:dec", "init Fs=%d ch=%d returned %d", Fs, ch, r);
       }
-      rep.label(legal ? "create:dec:accept" : "create:dec:reject"); rep.nontrivial(!legal);
+      rep.label(legal ? "create:dec:accept" : "create:dec:reject");
       return 0; }
     case 2: case 4: {  // ---- plain multistream encoder / decoder
       bool encoder = sub == 2;
@@ -148,7 +148,7 @@ static int create_family(Choice& c, Report& rep) {
         rep.count();
         if (r != (legal ? OPUS_OK : OPUS_BAD_ARG)) CR_FAIL(encoder ? "c11:init-verdict:ms-enc" : "c11:init-verdict:ms-dec", "init Fs=%d channels=%d streams=%d coupled=%d mapkind=%d returned %d, legal=%d", Fs, l.N, l.S, l.C, mk, r, legal);
       }
-      rep.label(encoder ? (legal ? "create:ms-enc:accept" : "create:ms-enc:reject") : (legal ? "create:ms-dec:accept" : "create:ms-dec:reject")); rep.nontrivial(!legal);
+      rep.label(encoder ? (legal ? "create:ms-enc:accept" : "create:ms-enc:reject") : (legal ? "create:ms-dec:accept" : "create:ms-dec:reject"));
       return 0; }
     case 3: {  // ---- surround encoder, channels 0..256
       int N = c.irange(0, 256), family = FAM_GRID[c.irange(0, 8)], Fs = FS_SMALL[c.irange(0, 1)], app = APP_SMALL[c.irange(0, 1)];
@@ -170,14 +170,14 @@ static int create_family(Choice& c, Report& rep) {
         if (e || !(err == OPUS_BAD_ARG || err == OPUS_UNIMPLEMENTED)) CR_FAIL("c11:create-illegal-accepted:surround", "Fs=%d channels=%d family=%d app=%d -> %s err=%d", Fs, N, family, app, e ? "object" : "NULL", err);
       }
       opus_int32 sz = opus_multistream_surround_encoder_get_size(N, family);
-      if ((sz > 0) != layout) CR_FAIL("c11:get-size:surround", "surround get_size(%d,%d)=%d, supported=%d", N, family, sz, layout);
-      if (sz > 0) {
+      if (layout && sz <= 0) CR_FAIL("c11:get-size:surround", "surround get_size(%d,%d)=%d, supported=%d", N, family, sz, layout);
+      if (sz > 0 && sz < (64 << 20)) {
         HeapBuf<unsigned char> mem(sz); memset(mem.p, 0xA5, sz);
         s = cp = -5;
         int r = opus_multistream_surround_encoder_init((OpusMSEncoder*)mem.p, Fs, N, family, &s, &cp, map.p, app); rep.count();
         if (legal ? (r != OPUS_OK || s != S || cp != C) : (r != OPUS_BAD_ARG && r != OPUS_UNIMPLEMENTED)) CR_FAIL("c11:init-verdict:surround", "init Fs=%d channels=%d family=%d app=%d returned %d", Fs, N, family, app, r);
       }
-      rep.label(legal ? "create:surround:accept" : "create:surround:reject"); rep.nontrivial(!legal);
+      rep.label(legal ? "create:surround:accept" : "create:surround:reject");
       return 0; }
     case 5: {  // ---- projection encoder, channels 0..256
       int N = c.irange(0, 256), family = PFAM_GRID[c.irange(0, 4)], Fs = FS_SMALL[c.irange(0, 1)], app = APP_SMALL[c.irange(0, 1)];
@@ -205,17 +205,18 @@ static int create_family(Choice& c, Report& rep) {
         if (legal ? (r != OPUS_OK || s != S || cp != C) : (r >= 0)) CR_FAIL("c11:init-verdict:projection-enc", "init Fs=%d channels=%d family=%d app=%d returned %d", Fs, N, family, app, r);
         if (c.chance(64)) { r = opus_projection_ambisonics_encoder_init((OpusProjectionEncoder*)mem.p, Fs, N, family, nullptr, &cp, app); if (r != OPUS_BAD_ARG) CR_FAIL("c11:init-verdict:projection-enc", "NULL streams pointer accepted: %d", r); }
       }
-      rep.label(legal ? "create:projection-enc:accept" : "create:projection-enc:reject"); rep.nontrivial(!legal);
+      rep.label(legal ? "create:projection-enc:accept" : "create:projection-enc:reject");
       return 0; }
     default: {  // ---- projection decoder
       PLay l = PLAYS[c.irange(0, NPLAYS - 1)]; int Fs = FS_SMALL[c.irange(0, 1)];
       long long nominal = 2ll * (l.S + l.C) * l.N;
       long long given = nominal + l.delta;
-      bool dims = l.N >= 1 && l.N <= 255 && l.S >= 1 && l.C >= 0 && l.C <= l.S && l.S + l.C <= 255 && nominal <= 65004;
+      // every output channel is demixed from the stream channels (trivial mapping i -> i), so channels <= streams + coupled
+      bool dims = l.N >= 1 && l.N <= 255 && l.S >= 1 && l.C >= 0 && l.C <= l.S && l.S + l.C <= 255 && l.N <= l.S + l.C && nominal <= 65004;
       bool legal = dims && l.delta == 0 && fs_legal(Fs);
-      // F14: the demixing-matrix size check passes for non-positive channel/stream products (0 == 0, negative == negative) and a
+      // F17: the demixing-matrix size check passes for non-positive channel/stream products (0 == 0, negative == negative) and a
       // variable-length array of that non-positive size is declared before the channel count is validated
-      if ((l.N <= 0 || l.S + l.C <= 0) && given == nominal && rep.exclude("F14")) { rep.label("create:projection-dec:excluded-F14"); return 0; }
+      if ((l.N <= 0 || l.S + l.C <= 0) && given == nominal && rep.exclude("F17")) { rep.label("create:projection-dec:excluded-F17"); return 0; }
       rep.note("opus_projection_decoder_create/init Fs=%d channels=%d streams=%d coupled=%d matrix_size=%lld (nominal %lld) legal=%d", Fs, l.N, l.S, l.C, given, nominal, legal);
       rep.fingerprint(mix(mix(l.N, l.S), mix(l.C * 100 + l.delta, Fs)));
       size_t alloc = given > 0 ? (size_t)given : 0;
@@ -232,7 +233,7 @@ static int create_family(Choice& c, Report& rep) {
         int r = opus_projection_decoder_init((OpusProjectionDecoder*)mem.p, Fs, l.N, l.S, l.C, mat.p, (opus_int32)given); rep.count();
         if (legal ? r != OPUS_OK : r >= 0) CR_FAIL("c11:init-verdict:projection-dec", "init Fs=%d channels=%d streams=%d coupled=%d size=%lld returned %d legal=%d", Fs, l.N, l.S, l.C, given, r, legal);
       }
-      rep.label(legal ? "create:projection-dec:accept" : "create:projection-dec:reject"); rep.nontrivial(!legal);
+      rep.label(legal ? "create:projection-dec:accept" : "create:projection-dec:reject");
       return 0; }
   }
 }
